@@ -160,8 +160,24 @@ GRAVITY_POINTS = [
 GEOM_SCALES = (1.0, 2.0**-20, 2.0**20)
 
 
+def _near_t0_points(kernel):
+    """Base flight with the arrival a fraction of a microsecond after t0 of the fixed-energy leg (whole ns, exact).
+
+    The same instant is then expressed in ns .. s by the unit grid: whether it is physical may not depend on the unit."""
+    mode, ename = INELASTIC[kernel]
+    base = POINTS[kernel][0]
+    si = {a: kin.to_si(k, base[a][0], base[a][1]) for a, k in (('tof', 'time'), ('L1', 'length'), ('L2', 'length'), (ename, 'energy'))}
+    fn = kin.energy_transfer_direct if mode == 'direct' else kin.energy_transfer_indirect
+    t0 = fn(si['tof'], si['L1'], si['L2'], si[ename])[2]
+    t0_ns = int(hp.mpmath.ceil(t0 * 10**9))
+    return [{**base, 'tof': (Fraction(t0_ns + extra), 'ns')} for extra in (300, 900, 2, -300)]
+
+
 def points_of(kernel, tier):
     pts = POINTS[kernel]
+    if kernel in INELASTIC:
+        near = _near_t0_points(kernel)
+        return pts + near if tier == 'thorough' else pts[:1] + near[:1]
     return pts if tier == 'thorough' else pts[:1]
 
 # geometry base point (metres, m/s^2), decimal strings -> exact Fractions
